@@ -322,24 +322,39 @@ def run(ctx):
     # slot: the per-group rate field = the f32 field of a crate-local struct that an f32-returning method of a sampler hands back (and
     # that then becomes the rate passed to format_with_sample_rate); identified by role, whatever it is called
     RF, rf_adt = None, None
-    for b_ in F.all_bodies(W):
-        if b_.d.get("output") != "f32" or "::tests::" in b_.path or not b_.path.startswith(W + "::sample"):
-            continue
+
+    def returned_f32_field(b_, depth=2):
+        """(field, owner adt) when the f32 result of b_ is the f32 field of a crate-local struct, possibly handed up through private f32 helpers"""
         for i_ in b_.live_blocks():
             for s_ in b_.stmts(i_):
                 if s_["k"] == "assign" and s_["lhs"]["l"] == 0 and s_["rv"]["k"] == "use":
                     pl = s_["rv"]["op"].get("copy") or s_["rv"]["op"].get("move")
                     if pl and pl.get("p") and pl["p"][-1][0] == "f" and len(pl["p"][-1]) > 4 and pl["p"][-1][4] == "f32" and pl["p"][-1][3].startswith(W + "::"):
-                        # ... and whose result is what a sampler hands to format_with_sample_rate as the rate
-                        feeds_rate = False
-                        for cs_ in F.callers_of(b_.path, crates=[W]):
-                            cpr_ = Prov(cs_.body)
-                            for fc in cs_.body.calls():
-                                if fc.is_trait_method("SampledFormat", "format_with_sample_rate") and any(
-                                        ("call", cs_.bb) in cpr_.operand(a_) or ("via", cs_.bb) in cpr_.operand(a_) for a_ in fc.args):
-                                    feeds_rate = True
-                        if feeds_rate and len(b_.d.get("inputs") or []) >= 2:
-                            RF, rf_adt = pl["p"][-1][2], pl["p"][-1][3]
+                        return pl["p"][-1][2], pl["p"][-1][3]
+        if depth > 0:
+            for c_ in b_.calls():
+                if not c_.dest.get("p") and (c_.dest["l"] == 0 or ("call", c_.bb) in Prov(b_).local(0)):
+                    for hb in local_callee_bodies(F, c_):
+                        if hb.crate == W and hb.d.get("output") == "f32":
+                            r = returned_f32_field(hb, depth - 1)
+                            if r:
+                                return r
+        return None
+    for b_ in F.all_bodies(W):
+        if b_.d.get("output") != "f32" or "::tests::" in b_.path or not b_.path.startswith(W + "::sample") or len(b_.d.get("inputs") or []) < 2:
+            continue
+        # ... whose result is what a sampler hands to format_with_sample_rate as the rate
+        feeds_rate = False
+        for cs_ in F.callers_of(b_.path, crates=[W]):
+            cpr_ = Prov(cs_.body)
+            for fc in cs_.body.calls():
+                if fc.is_trait_method("SampledFormat", "format_with_sample_rate") and any(
+                        ("call", cs_.bb) in cpr_.operand(a_) or ("via", cs_.bb) in cpr_.operand(a_) for a_ in fc.args):
+                    feeds_rate = True
+        if feeds_rate:
+            r = returned_f32_field(b_)
+            if r:
+                RF, rf_adt = r
     gs = [a for a in F.adts.values() if a["crate"] == W and a["def"] == rf_adt]
     ctx.floor("R12.3", "group-state types holding a sample_rate", len(gs), 1)
     for adt in gs:
@@ -547,7 +562,7 @@ def run(ctx):
                               "the rate update ranges over a filtered / truncated view of the groups (%s): the groups left out keep a stale rate" % (partial or srcs))
                     ctx.check(cb.must_pass(stores), "R12.4", fnkey(pb) + "#every-group-gets-a-fresh-rate@loop%d" % nl, loc(pb, c.bb),
                               "the per-group update closure can return without storing a rate: that group keeps a rate computed for an older traffic mix")
-    ctx.floor("R12.4", "rate-update loops", nl, 2)
+    ctx.floor("R12.4", "rate-update loops", nl, 1)
     return EXPL
 
 
